@@ -270,6 +270,10 @@ def whole_record(env: Env, cls, mode: str, members=()):
         obj = b.base(cls)
     elif mode == 'full':
         obj = b.full(cls)
+    elif mode == 'fullminus':      # every member holds a value but one (judged like a pair record)
+        obj = b.full(cls, skip=members)
+        mode = 'pair'
+        members = tuple('-' + m for m in members)
     else:
         obj = b.base(cls)
         for name in members:
@@ -281,6 +285,15 @@ def whole_record(env: Env, cls, mode: str, members=()):
     o = _run(env, cls, obj, None, mode)
     return {'c': {'p': WHOLE, 'vc': mode}, 'o': o, 'cls': cls.__name__, 'prop': '+'.join(members) or '*',
             'variant': 0, 'decl': cls.__name__, 'site': 'class'}
+
+
+def broken_record(env: Env, name: str, text: str):
+    """A class whose declaration is inconsistent (sorted_container_properties raises): it cannot even be instantiated."""
+    o = {'w': 'raise', 'r': 'na', 'w2': 'na', 'tin': -1, 'tout': -2, 'tnone': env.tnone, 'testr': env.testr,
+         'tdflt': -3, 'timpl': -4, 'tnow': env.tnow, 'rest': True, 'eq': 'na', 'x12': 'na', 'valid': 'na',
+         'shared': False, '_exc': f'{name}() cannot be instantiated: {text}'}
+    return {'c': {'p': WHOLE, 'vc': 'base'}, 'o': o, 'cls': name, 'prop': '*', 'variant': 0, 'decl': name,
+            'site': 'class'}
 
 
 # ------------------------------------------------------------------------------------------ TLC
@@ -423,6 +436,13 @@ def _effective(clauses: list[str]) -> list[str]:
     return out
 
 
+def _home(records, idxs) -> str:
+    """The class a group of failing records is filed under (the same in both tiers)."""
+    whole = sorted((len(records[i]['o'].get('_xml', '')), records[i]['cls']) for i in idxs
+                   if records[i]['site'] == 'class' and records[i]['c']['vc'] in ('base', 'full'))
+    return whole[0][1] if whole else sorted(records[i]['decl'] for i in idxs)[0]
+
+
 def _core(text: str) -> str:
     return (text or '').split(' [at ')[0][:200]
 
@@ -438,7 +458,7 @@ def _xsd_key(o: dict) -> str:
     return 'unclassified'
 
 
-def report(run, records: list[dict], failing: dict[int, list[str]]):
+def report(run, records: list[dict], failing: dict[int, list[str]], keep_replay: bool = True):
     """Turn the failing clauses into violations: one per root cause as far as the records tell."""
     fails: list[tuple[int, str]] = []
     for idx in sorted(failing):
@@ -452,7 +472,8 @@ def report(run, records: list[dict], failing: dict[int, list[str]]):
             groups.setdefault((clause, _core(records[idx]['o'].get('_exc'))), []).append(idx)
     for (clause, msg), idxs in sorted(groups.items()):
         idxs.sort(key=lambda i: (records[i]['site'] != 'class', len(records[i]['o'].get('_xml', '')), records[i]['cls']))
-        _violation(run, {'check': 'xmlstructure', 'clause': clause, 'error': msg}, records, idxs)
+        _violation(run, {'check': 'xmlstructure', 'clause': clause, 'class': _home(records, idxs), 'error': msg}, records,
+                   idxs, keep_replay)
         stats[f'{clause}/{msg[:80]}'] = len(idxs)
     # 2. XSD: one violation per complaint about the shape of the document
     groups = {}
@@ -461,7 +482,8 @@ def report(run, records: list[dict], failing: dict[int, list[str]]):
             groups.setdefault(_xsd_key(records[idx]['o']), []).append(idx)
     for key, idxs in sorted(groups.items()):
         idxs.sort(key=lambda i: (len(records[i]['o'].get('_xml', '')), records[i]['cls']))
-        _violation(run, {'check': 'xmlstructure', 'clause': 'valid', 'xsd': key}, records, idxs)
+        _violation(run, {'check': 'xmlstructure', 'clause': 'valid', 'class': _home(records, idxs), 'xsd': key}, records,
+                   idxs, keep_replay)
         stats[f'valid/{key[:80]}'] = len(idxs)
     # 3. value clauses: per declaration if all its members fail (systemic), else per member
     totals: dict[tuple, set] = {}
@@ -469,13 +491,22 @@ def report(run, records: list[dict], failing: dict[int, list[str]]):
         totals.setdefault((r['site'], json.dumps(r['c']['p'], sort_keys=True)), set()).add((r['decl'], r['prop']))
     groups = {}
     for idx, clause in fails:
-        if clause not in EXC_CLAUSES and clause != 'valid':
+        if clause == 'fresh':
+            groups.setdefault(records[idx]['o'].get('_shared', '?'), []).append(idx)
+    for shared, idxs in sorted(groups.items()):
+        idxs.sort(key=lambda i: (records[i]['site'] == 'class', len(records[i]['o'].get('_xml', '')), records[i]['cls']))
+        _violation(run, {'check': 'xmlstructure', 'clause': 'fresh', 'object': shared.split(' is ')[0]}, records, idxs, keep_replay)
+        stats[f'fresh/{shared[:80]}'] = len(idxs)
+    groups = {}
+    for idx, clause in fails:
+        if clause not in EXC_CLAUSES and clause not in ('valid', 'fresh'):
             r = records[idx]
             groups.setdefault((r['site'], json.dumps(r['c']['p'], sort_keys=True), clause), []).append(idx)
-    member_level = {(records[i]['cls'], c) for i, c in fails if records[i]['site'] != 'class'}
+    member_level = {records[i]['cls'] for i, c in fails if records[i]['site'] != 'class'
+                    and c not in EXC_CLAUSES and c not in ('valid', 'fresh')}
     for (site, sigkey, clause), idxs in sorted(groups.items()):
         if site == 'class':    # whole-object records only repeat what a record of one member of the class shows
-            idxs = [i for i in idxs if (records[i]['cls'], clause) not in member_level]
+            idxs = [i for i in idxs if records[i]['cls'] not in member_level]
             if not idxs:
                 continue
         members = {(records[i]['decl'], records[i]['prop']) for i in idxs}
@@ -484,19 +515,19 @@ def report(run, records: list[dict], failing: dict[int, list[str]]):
         base = {'check': 'xmlstructure', 'clause': clause, 'site': site, 'kind': sig['k'], 'opt': sig['opt'],
                 'df': sig['df']}
         if site != 'class' and len(total) >= 2 and members == total:
-            _violation(run, {**base, 'scope': 'every member declared this way'}, records, idxs)
+            _violation(run, {**base, 'scope': 'every member declared this way'}, records, idxs, keep_replay)
             stats[f'{clause}/{site}/all {len(members)} members'] = len(idxs)
         else:
             by_member: dict[tuple, list[int]] = {}
             for i in idxs:
                 by_member.setdefault((records[i]['decl'], records[i]['prop']), []).append(i)
             for (decl, prop), ii in sorted(by_member.items()):
-                _violation(run, {**base, 'class': decl, 'member': prop}, records, ii)
+                _violation(run, {**base, 'class': decl, 'member': prop}, records, ii, keep_replay)
                 stats[f'{clause}/{decl}.{prop}'] = len(ii)
     run.note('failing_records', stats)
 
 
-def _violation(run, descr, records, idxs):
+def _violation(run, descr, records, idxs, keep_replay=True):
     r = records[idxs[0]]
     o = r['o']
     clause = descr['clause']
@@ -523,7 +554,7 @@ def _violation(run, descr, records, idxs):
               'written': o.get('_in'), 'read': o.get('_out'), 'xsd': o.get('_xsd'), 'exception': o.get('_exc'),
               'observation': {k: v for k, v in o.items() if not k.startswith('_')},
               'members_alike': alike[:60], 'how': './check C05 --replay <this file>'}
-    run.violation(descr, what, replay)
+    run.violation(descr, what, replay if keep_replay else None)
 
 
 # ------------------------------------------------------------------------------------------ plan
@@ -536,7 +567,10 @@ def build_records(run, env: Env, by_sig: dict[str, list[str]]):
     t_learn = time.time()
     for cls in w.tested:
         env.x.learn(cls)
+    for cls in w.tested:
+        env.x.learn_strings(cls)
     run.note('learn_s', round(time.time() - t_learn, 2))
+    run.note('string_members_without_schema_valid_catalogue_value', env.b.no_lexical)
     for cls in w.tested:
         for mode in ('base', 'full'):
             rec = whole_record(env, cls, mode)
@@ -571,17 +605,16 @@ def build_records(run, env: Env, by_sig: dict[str, list[str]]):
         if thorough:
             opt = [pi.name for pi in w.props[cls] if pi.prop.is_optional and pi.kind != 'curtime']
             for i in range(len(opt)):
+                rec = whole_record(env, cls, 'fullminus', (opt[i],))
+                if rec is not None:
+                    records.append(rec)
                 for j in range(i + 1, len(opt)):
                     rec = whole_record(env, cls, 'pair', (opt[i], opt[j]))
                     if rec is not None:
                         records.append(rec)
     for name, text in w.broken.items():
-        o = {'w': 'raise', 'r': 'na', 'w2': 'na', 'tin': -1, 'tout': -2, 'tnone': env.tnone, 'testr': env.testr,
-             'tdflt': -3, 'timpl': -4, 'tnow': env.tnow, 'rest': True, 'eq': 'na', 'x12': 'na', 'valid': 'na',
-             'shared': False, '_exc': f'{name}() cannot be instantiated: {text}'}
-        records.append({'c': {'p': WHOLE, 'vc': 'base'}, 'o': o, 'cls': name, 'prop': '*', 'variant': 0, 'decl': name,
-                        'site': 'class'})
-    run.note('abstract_cases_without_concrete_member_here', skipped_cases)
+        records.append(broken_record(env, name, text))
+    run.note('cases_without_concrete_counterpart_on_the_member', skipped_cases)
     run.note('descriptors_enumerated_by_tlc', len(by_sig))
     run.note('descriptors_used_by_the_library', len(used_sigs))
     return records
@@ -596,17 +629,24 @@ def check(run, replay_path=None):
             rep = json.load(f)['replay']
         for cls in w.tested:
             env.x.learn(cls)
+        for cls in w.tested:
+            env.x.learn_strings(cls)
         cls = w.classes[rep['class']]
-        if rep['value_class'] in ('base', 'full', 'pair'):
+        if rep['class'] in w.broken:
+            rec = broken_record(env, rep['class'], w.broken[rep['class']])
+        elif rep['value_class'] in ('base', 'full', 'pair'):
             members = () if rep['member'] == '*' else tuple(rep['member'].split('+'))
-            rec = whole_record(env, cls, rep['value_class'], members)
+            if members and members[0].startswith('-'):
+                rec = whole_record(env, cls, 'fullminus', (members[0][1:],))
+            else:
+                rec = whole_record(env, cls, rep['value_class'], members)
         else:
             pi = next(p for p in w.props[cls] if p.name == rep['member'])
             rec = member_record(env, cls, pi, rep['value_class'], rep.get('variant', 0))
         failing = judge(run, [rec])
         print(f'replay {replay_path}: xml={rec["o"].get("_xml")} read={rec["o"].get("_out")} '
               f'failing clauses={failing.get(0)}')
-        report(run, [rec], failing)
+        report(run, [rec], failing, keep_replay=False)
         return
     records = build_records(run, env, by_sig)
     run.evaluations = len(records)
